@@ -421,15 +421,17 @@ mutual
   partial def execLoop (env : Env) (fuel : Nat) (scope : List (String × Bind)) (body : List Sexp) (cont brk : Sexp) (st : St) :
       M (Flow × St) := do
     if fuel = 0 then throw .fuel
-    let (fl, st) ← execBlock env (fuel - 1) scope body st
+    -- the continuing block is inside the loop body's scope: it sees the body's own declarations (WGSL §9.4.4.2: "a
+    -- continue must not bypass a declaration used in the continuing block", so the scope at the body's exit has them)
+    let (fl, bscope, st) ← execSeq env (fuel - 1) scope body st
     match fl with
     | .brk => pure (.next, st)
     | .ret v => pure (.ret v, st)
     | _ => do
       -- `break if` is the last statement of the continuing block: it sees the block's own declarations
       let (fl2, cscope, st) ← match cont with
-        | .list cs => execSeq env (fuel - 1) scope cs st
-        | _ => pure (Flow.next, scope, st)
+        | .list cs => execSeq env (fuel - 1) bscope cs st
+        | _ => pure (Flow.next, bscope, st)
       match fl2 with
       | .next => do
         let (stop, st) ← match brk with
